@@ -200,6 +200,7 @@ def render_verilog(nl, lib, seed, simple=False):
     decl('input', pi_decls); decl('output', po_decls); decl('wire', wire_decl)
     inst_names = {}
     insts = []          # what was instantiated: name, cell, {input pin: src}, {output pin: src}
+    floating, wire_decl_late = [], []
 
     def iname(prefix, k):
         nm = [f'{prefix}{k}', f'U{prefix}{k}', f'{prefix}_{k}_reg', f'{prefix}_reg[{k}]' if simple else f'top/{prefix}[{k}]'][st.pick(4)]
@@ -211,8 +212,13 @@ def render_verilog(nl, lib, seed, simple=False):
         pins = []
         for p, v in order:
             if v is None:
-                k = st.pick(3)
+                k = st.pick(4)
                 if k == 0: continue                       # pin not mentioned at all
+                if k == 3 and not simple:                 # a floating (declared or implicit, never driven) wire reads 0 like an open pin
+                    floating.append(f'float{len(floating)}')
+                    if st.pick(2): wire_decl_late.append(floating[-1])
+                    pins.append(f'.{p}({floating[-1]})')
+                    continue
                 pins.append(f'.{p}{st.sp()}({st.sp()})' if k == 1 else f".{p}(1'b0)")
             else:
                 pins.append(f'.{p}{st.sp()}({st.sp()}{v}{st.sp()})')
@@ -308,6 +314,12 @@ def render_verilog(nl, lib, seed, simple=False):
             if rhs is None or rhs.startswith('{'):
                 rhs = '{' + f'{st.sp()},{st.sp()}'.join(ref(nl['po'][j]) for j in grp) + '}'
             assigns.append(f'assign {lhs}{st.sp()}={st.sp()}{rhs};')
+    for w_ in wire_decl_late:
+        decl_stmts.append(f'wire {w_};')
+    undriven = []
+    if not simple and st.pick(3) == 0:
+        undriven = [('undrv0', None)] if st.pick(2) else [('undrvbus', (1, 0))]
+        decl('output', undriven)
     # shuffle statements
     stmts = body + assigns + alias_assigns
     for i in range(len(stmts) - 1, 0, -1):
@@ -321,7 +333,9 @@ def render_verilog(nl, lib, seed, simple=False):
     hdr = list(header)
     if st.pick(2):
         hdr = [d[0] for d in po_decls] + [d[0] for d in pi_decls]
-    decl_names = dict(pi_decls + po_decls)
+    if undriven:
+        hdr.insert(st.pick(len(hdr) + 1), undriven[0][0])
+    decl_names = dict(pi_decls + po_decls + undriven)
     for h in hdr:
         rng = decl_names[h]
         if rng is None:
